@@ -132,8 +132,8 @@ Print Assumptions C08_blob_no_name_is_global.
 (* private copy, heap level: the struct handed out and every object it points to are
    allocated by the selection (at or above the size of the heap holding the document),
    every object reachable from the document lies below *)
-Theorem C08_private_copy_disjoint : forall d q h0 doc h1 p,
-  load_doc [] d = (h0, doc) -> h_select true h0 doc q = (h1, HSel p) ->
+Theorem C08_private_copy_disjoint : forall rep d q h0 doc h1 p,
+  load_doc rep [] d = (h0, doc) -> h_select true h0 doc q = (h1, HSel p) ->
   (forall o, In o (reach h1 p) -> (List.length h0 <= o)%nat)
   /\ (forall sid o, In sid doc -> In o (reach h1 sid) -> (o < List.length h0)%nat).
 Proof. exact handed_out_disjoint. Qed.
@@ -143,8 +143,8 @@ Print Assumptions C08_private_copy_disjoint.
    writes (fields, slice elements, appends, map entries) through any of the statements handed
    out so far — every selection returns what the pristine document prescribes, no object of
    the document is written, and the document is deeply unchanged at the end *)
-Theorem C08_private_copy : forall d ops h0 doc rs hf,
-  load_doc [] d = (h0, doc) -> session true doc h0 [] ops = (rs, hf) ->
+Theorem C08_private_copy : forall rep d ops h0 doc rs hf,
+  load_doc rep [] d = (h0, doc) -> session true doc h0 [] ops = (rs, hf) ->
   rs = map (v_select d) (sel_queries ops)
   /\ map (view hf) doc = d
   /\ forall o, (o < List.length h0)%nat -> nth_error hf o = nth_error h0 o.
@@ -153,16 +153,18 @@ Print Assumptions C08_private_copy.
 
 (* the same on the correspondence model: the later selection is the first selection of a
    fresh run, whatever was written *)
-Theorem C08_later_selection_unaffected : forall d acc q1 ws q2 ver,
-  o_r2 (model (mk_input d acc q1 ws q2 ver)) = o_r1 (model (mk_input d acc q2 [] q2 ver))
-  /\ o_same (model (mk_input d acc q1 ws q2 ver)) = true.
+Theorem C08_later_selection_unaffected : forall d acc q1 ws q2 ver rep,
+  o_r2 (model (mk_input d acc q1 ws q2 ver rep)) = o_r1 (model (mk_input d acc q2 [] q2 ver rep))
+  /\ o_same (model (mk_input d acc q1 ws q2 ver rep)) = true.
 Proof. exact m_later_selection_unaffected. Qed.
 Print Assumptions C08_later_selection_unaffected.
+
+(* [rep] = whether empty slices / maps of the document are nil or empty non-nil objects *)
 
 (* the copy that shares the override map (SignatureVerification copied by value: the code
    before fix 355ef9e, [deep] = false) is NOT private: witness *)
 Theorem C08_private_copy_shallow_refuted :
-  exists d ops h0 doc, valid_doc d = true /\ load_doc [] d = (h0, doc) /\
+  exists d ops h0 doc, valid_doc d = true /\ load_doc false [] d = (h0, doc) /\
     fst (session false doc h0 [] ops) <> map (v_select d) (sel_queries ops).
 Proof. exact shallow_refuted. Qed.
 Print Assumptions C08_private_copy_shallow_refuted.
@@ -189,7 +191,7 @@ Print Assumptions C08_model_meets_oracle.
    extension and the near misses each get their own answer; writing through the result and
    selecting again gives the same *)
 Example C08_example_select :
-  let i := mk_input ex_doc true (QOci "reg.io/a/b@sha256:00") (wall "x") (QOci "reg.io/a/b@sha256:00") true in
+  let i := mk_input ex_doc true (QOci "reg.io/a/b@sha256:00") (wall "x") (QOci "reg.io/a/b@sha256:00") true true in
   wf i = true
   /\ o_r1 (model i) = RSel (nth 0 ex_doc dummy_stmt)
   /\ o_r2 (model i) = RSel (nth 0 ex_doc dummy_stmt)
@@ -198,7 +200,7 @@ Example C08_example_select :
 Proof. vm_compute. repeat split; reflexivity. Qed.
 
 Example C08_example_near_misses :
-  let sel ref := o_r1 (model (mk_input ex_doc true (QOci ref) [] (QOci ref) false)) in
+  let sel ref := o_r1 (model (mk_input ex_doc true (QOci ref) [] (QOci ref) false false)) in
   sel "reg.io/a/b/c@sha256:00" = RSel (nth 1 ex_doc dummy_stmt)
   /\ sel "reg.io/a@sha256:00" = RSel (nth 2 ex_doc dummy_stmt)          (* prefix: wildcard *)
   /\ sel "reg.io/a/bc@sha256:00" = RSel (nth 2 ex_doc dummy_stmt)       (* sibling *)
@@ -207,29 +209,29 @@ Example C08_example_near_misses :
   /\ sel "reg.io/a/b:v1@sha256:00" = RErr 2                            (* tag *)
   /\ sel "reg.io/a/b:v1" = RErr 1                                      (* tag only *)
   /\ sel "reg.io/a/b/c@x@sha256:00" = RErr 2                           (* path is the text before the LAST '@' *)
-  /\ o_r1 (model (mk_input (firstn 2 ex_doc) true (QOci "reg.io/a@sha256:00") [] QGlobal false)) = RErr 3.
+  /\ o_r1 (model (mk_input (firstn 2 ex_doc) true (QOci "reg.io/a@sha256:00") [] QGlobal false false)) = RErr 3.
 Proof. vm_compute. repeat split; reflexivity. Qed.
 
 Example C08_example_permuted :
   Permutation ex_doc (rev ex_doc)
-  /\ o_r1 (model (mk_input (rev ex_doc) true (QOci "reg.io/a/b@sha256:00") [] QGlobal false))
+  /\ o_r1 (model (mk_input (rev ex_doc) true (QOci "reg.io/a/b@sha256:00") [] QGlobal false true))
      = RSel (nth 0 ex_doc dummy_stmt).
 Proof. split; [apply Permutation_rev | vm_compute; reflexivity]. Qed.
 
 Example C08_example_blob :
-  let sel q := o_r1 (model (mk_input ex_blob true q (wall "x") q false)) in
+  let sel q := o_r1 (model (mk_input ex_blob true q (wall "x") q false true)) in
   valid_doc ex_blob = true
   /\ sel (QName "b0") = RSel (nth 0 ex_blob dummy_stmt)
   /\ sel (QName "B0") = RSel (nth 1 ex_blob dummy_stmt)
   /\ sel (QName "b") = RErr 5 /\ sel (QName "b0 ") = RErr 5
   /\ sel (QName "") = RErr 4 /\ sel (QName "  ") = RErr 4
   /\ sel QGlobal = RSel (nth 1 ex_blob dummy_stmt)
-  /\ o_ver (model (mk_input ex_blob true (QName "") [] QGlobal true)) = VUsed (Some "k1").
+  /\ o_ver (model (mk_input ex_blob true (QName "") [] QGlobal true false)) = VUsed (Some "k1").
 Proof. vm_compute. repeat split; reflexivity. Qed.
 
 (* a session with two selections and writes through both results *)
 Example C08_example_session :
-  let '(h0, doc) := load_doc [] ex_doc in
+  let '(h0, doc) := load_doc true [] ex_doc in
   let q := QOci "reg.io/a/b@sha256:00" in
   fst (session true doc h0 []
          [OSel q; OWr 0 (WMapSet "revocation" "skip"); OWr 0 (WFill FScopes "x"); OSel q;
